@@ -86,6 +86,7 @@ class GlobalState:
         self.path = list(sys.path)
         self.cwd = os.getcwd()
         self.stdout, self.stderr, self.stdin = sys.stdout, sys.stderr, sys.stdin
+        self.executable = sys.executable
         self.handlers = list(logging.getLogger().handlers)
         self.loglevel = logging.getLogger().level
         self.filters = list(warnings.filters)
@@ -111,6 +112,7 @@ class GlobalState:
         except OSError:
             pass
         sys.stdout, sys.stderr, sys.stdin = self.stdout, self.stderr, self.stdin
+        sys.executable = self.executable
         root = logging.getLogger()
         root.handlers[:] = self.handlers
         root.setLevel(self.loglevel)
